@@ -23,7 +23,7 @@ REACH = {'circuit.traversals': ('circuit.py', 500, 570), 'circuit.locs': ('circu
 
 def plan(tier, seed):
     q = tier == 'quick'
-    return [{'n': 120 if q else 2500, 'names': 150 if q else 3000} for _ in range(16)]
+    return [{'n': 600 if q else 20000, 'names': 700 if q else 20000} for _ in range(16)]
 
 
 def conclude(agg):
